@@ -36,6 +36,9 @@ def inputs(ctx):
         ins.append({"id": "gm%d" % k, "kind": "merge", "langs": [keys]})
         if keys:
             ins.append({"id": "gm2-%d" % k, "kind": "merge", "langs": [keys, list(reversed(keys)), []]})
+            # captions whose own nodes begin or end with a line break: the separator is added all the same
+            ins.append({"id": "gm3-%d" % k, "kind": "merge", "langs": [keys], "breaks": "edge"})
+            ins.append({"id": "gm4-%d" % k, "kind": "merge", "langs": [keys], "breaks": "edge2"})
     for k in range(400 if ctx.quick else 20000):
         langs = []
         for _ in range(rng.randrange(1, 4)):
@@ -45,7 +48,7 @@ def inputs(ctx):
                 key = rng.choice("ABCD")
                 ks += [key] * min(n - len(ks), rng.choice([1, 1, 1, 2, 3, 5]))
             langs.append(ks)
-        ins.append({"id": "rm%d" % k, "kind": "merge", "langs": langs, "breaks": True})
+        ins.append({"id": "rm%d" % k, "kind": "merge", "langs": langs, "breaks": rng.choice([True, True, "edge", "edge2"])})
     # adjust: grid
     t1, t2 = 1_000_000, 3_000_000
     g = 0
@@ -92,7 +95,13 @@ def _mk(langs_desc, with_breaks):
             else:
                 s, e = item
             nodes = [CaptionNode.create_text("L%d c%d a" % (li, ci))]
-            if with_breaks and ci % 3 == 1:
+            if with_breaks in ("edge", "edge2"):
+                shape = (ci + (1 if with_breaks == "edge2" else 0)) % 4     # trailing / leading / both / none
+                if shape in (1, 2):
+                    nodes.insert(0, CaptionNode.create_break())
+                if shape in (0, 2):
+                    nodes.append(CaptionNode.create_break())
+            elif with_breaks and ci % 3 == 1:
                 nodes.append(CaptionNode.create_break())
                 nodes.append(CaptionNode.create_text("L%d c%d b" % (li, ci)))
             elif ci % 2 == 0:
